@@ -213,6 +213,12 @@ fn pages_of(words: &[u64]) -> BTreeSet<usize> {
 
 /// every interleaving of one scenario; the partition predicate of C08
 fn scenario(rec: &mut Rec, name: &str, size: usize, page: usize, threads: Vec<Vec<TOp>>) -> usize {
+    scenario_post(rec, name, size, page, threads, vec![])
+}
+
+/// as `scenario`; when the concurrent part is over the calling thread marks the pages in `post`, one by one: a
+/// mark made after everything else has finished must be there at the end, whatever the interleaving before it was
+fn scenario_post(rec: &mut Rec, name: &str, size: usize, page: usize, threads: Vec<Vec<TOp>>, post: Vec<usize>) -> usize {
     let counts: Vec<usize> = threads.iter().map(|t| count_steps(size, page, t)).collect();
     let all = interleavings(&counts);
     let np = size.div_ceil(page);
@@ -232,7 +238,15 @@ fn scenario(rec: &mut Rec, name: &str, size: usize, page: usize, threads: Vec<Ve
     for order in &all {
         let bm = Arc::new(AtomicBitmap::new(size, NonZeroUsize::new(page).unwrap()));
         let res = run_schedule(bm.clone(), &threads, order.clone());
+        for p in &post {
+            bm.set_addr_range(p * page, 1);
+        }
         let end = pages_of(&bm.get_and_reset());
+        for p in &post {
+            if *p < np && !end.contains(p) {
+                rec.fail("C08", &format!("{}/mark-after-the-race-lost", name), &format!("page={} order={:?}", p, order));
+            }
+        }
         let mut harvested = BTreeSet::new();
         let mut seen_by_clone = BTreeSet::new();
         for (tid, rs) in res.iter().enumerate() {
@@ -253,7 +267,7 @@ fn scenario(rec: &mut Rec, name: &str, size: usize, page: usize, threads: Vec<Ve
         }
         // no phantom: nothing reported or left that nobody marked
         for p in harvested.iter().chain(end.iter()).chain(seen_by_clone.iter()) {
-            if !marked.contains(p) {
+            if !marked.contains(p) && !post.contains(p) {
                 rec.fail("C08", &format!("{}/phantom", name), &format!("page={} order={:?}", p, order));
             }
         }
@@ -299,6 +313,9 @@ pub fn run(rec: &mut Rec, rng: &mut Rng, n_random: usize, thorough: bool) {
     total += scenario(rec, "markrange-2words-vs-harvest", 128, 1, vec![vec![TOp::Mark(63, 2)], vec![TOp::Harvest]]);
     total += scenario(rec, "mark-vs-clear-vs-harvest", 128, 1, vec![vec![TOp::Mark(3, 2)], vec![TOp::Clear(4, 1)], vec![TOp::Harvest]]);
     total += scenario(rec, "mark-vs-clone", 128, 1, vec![vec![TOp::Mark(62, 3)], vec![TOp::CloneB], vec![TOp::SetBit(1)]]);
+    total += scenario_post(rec, "mark-vs-harvest-then-mark-again", 128, 1, vec![vec![TOp::SetBit(5)], vec![TOp::Harvest]], vec![5]);
+    total += scenario_post(rec, "markrange-vs-harvest-then-mark-again", 128, 1, vec![vec![TOp::Mark(5, 1)], vec![TOp::Harvest]], vec![5, 6]);
+    total += scenario_post(rec, "mark-vs-clear-then-mark-again", 128, 1, vec![vec![TOp::Mark(5, 1)], vec![TOp::Clear(5, 1)]], vec![5]);
     total += scenario(rec, "two-harvests", 128, 1, vec![vec![TOp::Mark(10, 2)], vec![TOp::Harvest], vec![TOp::Harvest]]);
     if thorough {
         total += scenario(rec, "T-markrange-vs-markrange-vs-harvest", 192, 1, vec![vec![TOp::Mark(62, 4)], vec![TOp::Mark(64, 3)], vec![TOp::Harvest]]);
